@@ -96,7 +96,7 @@ def _neighbours(rec, sels, cbc, tag):
     return out
 
 
-@P.sub("cbc", cbc_case, quick=1500, thorough=60000)
+@P.sub("cbc", cbc_case, quick=1500, thorough=150000)
 def cbc(case, ctx):
     """TLCP/TLS 1.2 SM4-CBC + HMAC-SM3 records: round trip, model interop both ways, generated neighbourhood rejected"""
     l = lib(ctx.variant)
@@ -189,7 +189,7 @@ def _t13_unprotect(l, key, iv, seq, body):
     return r, rt.value, out.raw(ol.value)
 
 
-@P.sub("tls13", t13_case, quick=1500, thorough=60000)
+@P.sub("tls13", t13_case, quick=1500, thorough=150000)
 def tls13(case, ctx):
     """TLS 1.3 SM4-GCM records: round trip, model interop both ways, generated neighbourhood and all-padding plaintexts rejected"""
     l = lib(ctx.variant)
